@@ -14,6 +14,7 @@ CONF = {
             'record counts 0..3 and huge; the sFlow datagrams of layers/sflow_test.go (parsed with go/ast) whole, truncated and with forced words; '
             'random multi-sample datagrams; a malformed stream; everything also decoded into an object that already holds three samples (dec2).',
     'shrink_keep_first': 0,
+    'coq_sample': 12,   # cases re-evaluated inside Coq by vm_compute against the extracted runner's output
     'assumptions': ['Go slice/append/make semantics as modelled (reads checked against len, stricter than cap; string(bytes[:n]) within capacity)',
                     'gopacket.NewPacket(header, LayerTypeEthernet, gopacket.Default) inside decodeRawPacketFlowRecord is an opaque total function of the header bytes (it recovers panics); only the bytes handed to it are compared',
                     'gopacket.LayerString/LayerDump/LayerGoString total on non-nil layers (reflective); the String methods of sflow.go are switches with defaults (exercised on every decoded value)',
